@@ -3,6 +3,7 @@ package main
 // Memory model: locations (engine-level address descriptors), loads, stores, allocation.
 
 import (
+	"sort"
 	"fmt"
 	"go/types"
 	"strings"
@@ -106,7 +107,30 @@ func (g *Gen) resliceLemma(elem types.Type, off, lo string) {
 	}
 	g.axiomDone[key] = true
 	g.axiomLog = append(g.axiomLog, key)
-	g.assert(fmt.Sprintf("(forall ((a!r %s) (j!r Int)) (! (= %s %s) :pattern (%s)))", es, lhs, rhs, lhs))
+	// offsets mentioning variables bound by an enclosing quantifier of the specification: the
+	// lemma is stated for every value of those variables
+	extra := ""
+	var bvs []string
+	for bv := range g.boundSorts {
+		bvs = append(bvs, bv)
+	}
+	sort.Strings(bvs)
+	for _, bv := range bvs {
+		if containsSym(off, bv) || containsSym(lo, bv) {
+			extra += fmt.Sprintf(" (%s %s)", bv, g.boundSorts[bv])
+		}
+	}
+	g.globalMode++
+	g.assert(fmt.Sprintf("(forall ((a!r %s) (j!r Int)%s) (! (= %s %s) :pattern (%s)))", es, extra, lhs, rhs, lhs))
+	g.globalMode--
+}
+
+// noteBound records the sort of a variable bound by a quantifier of a specification.
+func (g *Gen) noteBound(name string, sort Sort) {
+	if g.boundSorts == nil {
+		g.boundSorts = map[string]Sort{}
+	}
+	g.boundSorts[name] = sort
 }
 
 func (g *Gen) viewRead(inner string, es Sort, off, idx string) string {
@@ -260,4 +284,21 @@ func cardArr(mt *types.Map) string {
 func (g *Gen) mapCard(st *State, m T) string {
 	mt := m.GT.Underlying().(*types.Map)
 	return sel(g.arr(st, cardArr(mt), "Int"), m.S)
+}
+
+// containsSym: the SMT symbol sym occurs in term s (as a whole token).
+func containsSym(s, sym string) bool {
+	for i := 0; ; {
+		j := strings.Index(s[i:], sym)
+		if j < 0 {
+			return false
+		}
+		k := i + j + len(sym)
+		before := i+j == 0 || strings.ContainsRune(" ()", rune(s[i+j-1]))
+		after := k >= len(s) || strings.ContainsRune(" ()", rune(s[k]))
+		if before && after {
+			return true
+		}
+		i = i + j + 1
+	}
 }
